@@ -21,6 +21,11 @@ type RecvConfig struct {
 	RejectNonMinimalLength   bool // 5.2 "minimal number of bytes MUST be used" is addressed to the sender
 	RejectUnspecifiedCodes   bool // close codes of class CloseCodeUnspecified
 	RejectInvalidUTF8InTexts bool // 8.1; many libraries leave text validation to the application
+
+	// IgnoreRule names one rule (a FailKind) the modelled receiver does NOT enforce.
+	// Checks use it to classify an observed deviation ("behaves exactly like a
+	// receiver lacking rule X").
+	IgnoreRule string
 }
 
 // Msg is one data message.
@@ -71,6 +76,13 @@ type Outcome struct {
 	// error" can be demanded.
 	Ambiguous bool
 
+	// A fragmented message that was still incomplete at the end (for readers that
+	// hand out message data before the final fragment arrived).
+	PendingType       byte
+	PendingCompressed bool
+	PendingData       []byte // wire payload received so far (not inflated)
+	HasPending        bool
+
 	// statistics for coverage counters
 	NonMinimal   int
 	InvalidUTF8  int
@@ -78,10 +90,33 @@ type Outcome struct {
 	CompressedIn int
 }
 
-// flate readers and writers are expensive to allocate (hundreds of kB each), so
-// the model recycles them; this is plumbing, not protocol logic.
-var inflaters sync.Pool
-var deflaters [12]sync.Pool
+// flate readers and writers are very expensive to allocate under the race
+// detector (~250 ms per flate.NewWriter), so the model keeps them on plain free
+// lists (sync.Pool deliberately drops entries under -race). Plumbing, not protocol logic.
+type freeList struct {
+	mu sync.Mutex
+	xs []any
+}
+
+func (f *freeList) Get() any {
+	f.mu.Lock()
+	defer f.mu.Unlock()
+	if n := len(f.xs); n > 0 {
+		x := f.xs[n-1]
+		f.xs = f.xs[:n-1]
+		return x
+	}
+	return nil
+}
+
+func (f *freeList) Put(x any) {
+	f.mu.Lock()
+	f.xs = append(f.xs, x)
+	f.mu.Unlock()
+}
+
+var inflaters freeList
+var deflaters [12]freeList
 
 func getInflater(r io.Reader) io.ReadCloser {
 	if v := inflaters.Get(); v != nil {
@@ -187,13 +222,31 @@ func Deflate(data []byte, level int, mode int, cuts []int) []byte {
 
 // Decode runs the reference receiver over stream.
 func Decode(stream []byte, cfg RecvConfig) Outcome {
-	var out Outcome
+	return decode(stream, cfg)
+}
+
+func decode(stream []byte, cfg RecvConfig) (out Outcome) {
 	pos := 0
 	inMsg := false
 	var cur Msg
 	var curBuf []byte
 	var wire int64
 
+	ctrlInMsg := 0 // control frames interleaved in the current message
+	defer func() {
+		if inMsg {
+			out.HasPending, out.PendingType, out.PendingCompressed = true, cur.Type, cur.Compressed
+			out.PendingData = append([]byte(nil), curBuf...)
+		}
+	}()
+	// truncated ends the stream inside a frame. part is the unmasked part of a data
+	// frame's payload that did arrive.
+	truncated := func(part []byte) {
+		out.End = EndTruncated
+		if inMsg && cur.Compressed && !prefixClean(append(append([]byte(nil), curBuf...), part...), cfg.InflatedLimit) {
+			out.Ambiguous = true // a lazily inflating reader may fail on the data before it notices the truncation
+		}
+	}
 	frameEnd := 0 // offset behind the frame being judged (len(stream) if incomplete)
 	fail := func(kind string, codes ...int) {
 		out.End = EndFail
@@ -208,18 +261,19 @@ func Decode(stream []byte, cfg RecvConfig) Outcome {
 	for {
 		rest := stream[pos:]
 		if len(rest) == 0 {
+			truncated(nil)
 			out.End = EndEOF
 			return out
 		}
 		h, ok := ParseHeader2(rest)
 		if !ok {
-			out.End = EndTruncated
+			truncated(nil)
 			return out
 		}
 		// --- rules decidable from the first two octets -------------------------------
 		kind := ""
 		set := func(k string) {
-			if kind == "" {
+			if kind == "" && k != cfg.IgnoreRule {
 				kind = k
 			}
 		}
@@ -311,12 +365,12 @@ func Decode(stream []byte, cfg RecvConfig) Outcome {
 			hdrComplete = len(rest) >= need
 		}
 		if !hdrComplete {
-			out.End = EndTruncated
+			truncated(nil)
 			return out
 		}
 		if !ctrl {
 			wire += int64(declLen)
-			if cfg.ReadLimit > 0 && (wire > cfg.ReadLimit || wire < 0) {
+			if cfg.ReadLimit > 0 && (wire > cfg.ReadLimit || wire < 0) && cfg.IgnoreRule != "read-limit-exceeded" {
 				fail("read-limit-exceeded", 1009)
 				if err != nil {
 					out.Ambiguous = true
@@ -325,7 +379,27 @@ func Decode(stream []byte, cfg RecvConfig) Outcome {
 			}
 		}
 		if err != nil { // payload cut
-			out.End = EndTruncated
+			hl := 2 + extNeed
+			if h.Masked {
+				hl += 4
+			}
+			part := append([]byte(nil), rest[hl:]...)
+			if h.Masked {
+				for i := range part {
+					part[i] ^= f.Key[i&3]
+				}
+			}
+			switch {
+			case ctrl:
+				truncated(nil)
+			case h.Opcode == OpCont:
+				truncated(part)
+			default: // first frame of a message
+				out.End = EndTruncated
+				if h.RSV1 && !prefixClean(part, cfg.InflatedLimit) {
+					out.Ambiguous = true
+				}
+			}
 			return out
 		}
 		pos += n
@@ -333,12 +407,17 @@ func Decode(stream []byte, cfg RecvConfig) Outcome {
 
 		switch f.Opcode {
 		case OpPing, OpPong:
+			if inMsg {
+				ctrlInMsg++
+			}
 			out.Controls = append(out.Controls, Control{Opcode: f.Opcode, Payload: f.Payload, AfterMsgs: len(out.Msgs)})
 			continue
 		case OpClose:
 			p := f.Payload
 			switch {
 			case len(p) == 0:
+				out.CloseCode = 1005
+			case len(p) == 1 && cfg.IgnoreRule == "close-payload-one-byte":
 				out.CloseCode = 1005
 			case len(p) == 1:
 				// 5.5.1: "If there is a body, the first two bytes of the body MUST be a 2-byte unsigned integer"
@@ -348,8 +427,10 @@ func Decode(stream []byte, cfg RecvConfig) Outcome {
 				code := int(binary.BigEndian.Uint16(p))
 				switch ClassifyCloseCode(code) {
 				case CloseCodeForbidden:
-					fail("close-code-forbidden", 1002)
-					return out
+					if cfg.IgnoreRule != "close-code-forbidden" {
+						fail("close-code-forbidden", 1002)
+						return out
+					}
 				case CloseCodeUnspecified:
 					out.Unspecified++
 					if cfg.RejectUnspecifiedCodes {
@@ -357,7 +438,7 @@ func Decode(stream []byte, cfg RecvConfig) Outcome {
 						return out
 					}
 				}
-				if !utf8.Valid(p[2:]) {
+				if !utf8.Valid(p[2:]) && cfg.IgnoreRule != "close-reason-invalid-utf8" {
 					// 5.5.1 (reason is UTF-8) + 8.1 (MUST fail the connection); 1007 is the
 					// status the RFC suggests, 1002 is what most implementations send.
 					fail("close-reason-invalid-utf8", 1002, 1007)
@@ -375,6 +456,7 @@ func Decode(stream []byte, cfg RecvConfig) Outcome {
 			inMsg = true
 			cur = Msg{Type: f.Opcode, Compressed: f.RSV1}
 			curBuf = curBuf[:0]
+			ctrlInMsg = 0
 		}
 		cur.Fragments++
 		curBuf = append(curBuf, f.Payload...)
@@ -387,13 +469,22 @@ func Decode(stream []byte, cfg RecvConfig) Outcome {
 		data := append([]byte(nil), curBuf...)
 		if cur.Compressed {
 			out.CompressedIn++
-			d, over, ierr := Inflate(curBuf, cfg.InflatedLimit)
-			if over {
-				fail("inflated-limit-exceeded", 1009)
-				return out
+			lim := cfg.InflatedLimit
+			if cfg.IgnoreRule == "inflated-limit-exceeded" {
+				lim = 0
 			}
-			if ierr != nil {
-				fail("deflate-stream-corrupt") // RFC 7692 does not name a status code
+			d, over, ierr := Inflate(curBuf, lim)
+			if over || ierr != nil {
+				if over {
+					fail("inflated-limit-exceeded", 1009)
+				} else {
+					fail("deflate-stream-corrupt") // RFC 7692 does not name a status code
+				}
+				if ctrlInMsg > 0 {
+					// a reader inflating on the fly fails before it has seen the control
+					// frames interleaved with the later fragments
+					out.Ambiguous = true
+				}
 				return out
 			}
 			data = d
